@@ -24,6 +24,7 @@ import sys
 import threading
 
 import fiddle as fdl
+from fiddle import daglish
 from fiddle._src import building
 from fiddle._src import history
 from fiddle._src.experimental import serialization
@@ -34,6 +35,9 @@ from harness import heap as H
 PROP = 'C19'
 SRC = os.path.join(os.path.realpath(common.REPO), 'fiddle', '_src') + os.sep
 PROGS = ('build', 'nested', 'fail', 'edit', 'sig', 'copy')
+KEY_FILES = {'building.py', 'history.py', 'signatures.py', 'reraised_exception.py'}
+# files whose lines are scheduling points: None = every file of fiddle/_src (thorough tier)
+WATCH = KEY_FILES if common.tier() == 'quick' else None
 
 
 class CustomErr(Exception):
@@ -57,6 +61,8 @@ class Sched:
     self.region_order = [[] for _ in progs]
     self.steps = 0
     self.shared = {}
+    self.step_files = []          # file of the line each step stopped at (for choosing preemption points)
+    self._where = ['?'] * self.n
 
   # ---- called from worker threads
   def _observe(self, i):
@@ -80,10 +86,12 @@ class Sched:
   def _tracer(self, i):
     def local(frame, event, arg):
       if event == 'line':
+        self._where[i] = os.path.basename(frame.f_code.co_filename)
         self.pause(i)
       return local
     def glob(frame, event, arg):
-      if event == 'call' and frame.f_code.co_filename.startswith(SRC):
+      fn = frame.f_code.co_filename
+      if event == 'call' and fn.startswith(SRC) and (WATCH is None or os.path.basename(fn) in WATCH):
         return local
       return None
     return glob
@@ -110,6 +118,7 @@ class Sched:
       runnable = [i for i in range(self.n) if not self.done[i]]
       cur = self.policy(self.steps, cur, runnable)
       self.steps += 1
+      self.step_files.append(self._where[cur])
       self.go[cur].release()
       if not self.ctrl.acquire(timeout=60):
         raise common.MachineryError('scheduler: a thread did not yield within 60 s')
@@ -121,6 +130,18 @@ class Sched:
 
 
 # ------------------------------- programs ---------------------------------
+
+def all_seqs(*roots):
+  """Sequence ids of every history entry of every Buildable reachable from the roots."""
+  out = []
+  seen = set()
+  for r in roots:
+    for v, _ in daglish.iterate(r):
+      if isinstance(v, fdl.Buildable) and id(v) not in seen:
+        seen.add(id(v))
+        out += [e.sequence_id for l in v.__argument_history__.values() for e in l]
+  return sorted(out)
+
 
 def _slow(s1=0, s2=0, s3=0):
   return ('slow', s1, s2, s3)
@@ -137,6 +158,7 @@ def p_build(s, i):
   s.mark(i, 'in-build')
   r = fdl.build(cfg)
   s.mark(i, 'outside')
+  s.seqs[i] = all_seqs(cfg)
   return 'built' if r == ('made', ('slow', i, 0, 0), [1, 2]) else f'wrong-result:{r}'
 
 
@@ -206,9 +228,39 @@ def p_edit(s, i):
 def p_sig(s, i):
   fn = s.shared['fn']
   cfg = fdl.Config(fn, 1, k=2)
+  s.seqs[i] = all_seqs(cfg)
   ok = list(cfg.__signature_info__.parameters) == ['a', 'b', 'k'] and cfg.a == 1 and cfg.k == 2
   s.mark(i, 'in-build')
   ok = ok and fdl.build(cfg) == (1, 5, 2)
+  s.mark(i, 'outside')
+  # callables that cannot be keys of the weak signature cache (eq-dataclass instances with
+  # __call__), a different signature per thread, created and dropped again and again
+  import dataclasses as _dc
+  if i % 2 == 0:
+    @_dc.dataclass
+    class Scale:
+      factor: float = 2.0
+      def __call__(self, x, y=1):
+        return ('scale', x, y)
+    kw = {'x': 3, 'y': 4}
+    want = ('scale', 3, 4)
+  else:
+    @_dc.dataclass
+    class Scale:
+      offset: float = 1.0
+      def __call__(self, z, w=1):
+        return ('shift', z, w)
+    kw = {'z': 3, 'w': 4}
+    want = ('shift', 3, 4)
+  s.mark(i, 'in-build')
+  for _ in range(5):
+    inst = Scale()
+    try:
+      if fdl.build(fdl.Config(inst, **kw)) != want:
+        ok = False
+    except Exception:  # pylint: disable=broad-except
+      ok = False
+    del inst
   s.mark(i, 'outside')
   return 'sig-ok' if ok else f'sig-wrong:{cfg}'
 
@@ -216,6 +268,7 @@ def p_sig(s, i):
 def p_copy(s, i):
   shared = fdl.Config(_slow, s1=i)
   cfg = fdl.Config(_slow, s1=shared, s2=[shared, {'k': (1, 2)}], s3=i)
+  s.seqs[i] = all_seqs(cfg)
   c2 = copy.deepcopy(cfg)
   js = serialization.dump_json(cfg)
   back = serialization.load_json(js)
@@ -242,7 +295,7 @@ def run_schedule(names, policy):
     threads.append({'prog': n, 'result': str(s.results[i]), 'seqs': s.seqs[i],
                     'regions': [{'name': r, 'guard': s.obs[i][r][0], 'tracking': s.obs[i][r][1]}
                                 for r in s.region_order[i]]})
-  return {'threads': threads, 'steps': s.steps}
+  return {'threads': threads, 'steps': s.steps, 'step_files': s.step_files}
 
 
 def sequential(step, cur, runnable):
@@ -344,9 +397,17 @@ def main():
     rng = random.Random(common.seed() * 198491317 + 11)
     for rec in base:
       steps = rec['steps']
-      pts = list(range(1, steps))
-      if quick and len(pts) > 24:
-        pts = sorted(rng.sample(pts, 24))
+      # every line of the files that hold module-level state is a preemption point; the other
+      # lines are sampled in the quick tier
+      key = KEY_FILES
+      files = rec.get('step_files', [])
+      keypts = [s_ for s_ in range(1, steps) if s_ < len(files) and files[s_] in key]
+      other = [s_ for s_ in range(1, steps) if s_ not in set(keypts)]
+      if quick and len(other) > 6:
+        other = rng.sample(other, 6)
+      if quick and len(keypts) > 40:
+        keypts = rng.sample(keypts, 40)
+      pts = sorted(set(keypts) | set(other))
       for s_ in pts:
         jobs.append((tuple(rec['names']), 'preempt', [[s_, 1]]))
         if not quick:
@@ -389,7 +450,7 @@ def main():
   v.sample({'programs': recs[-1]['names'], 'schedule': recs[-1]['schedule'],
             'threads': recs[-1]['threads']})
   v.assumptions += [
-      'preemption happens at source-line granularity inside fiddle/_src (sys.settrace line events) and at the '
+      'preemption happens at source-line granularity (sys.settrace line events; quick tier: the four files holding module-level state -- building, history, signatures, reraised_exception; thorough tier: every file of fiddle/_src) and at the '
       'explicit pauses of the slow callables; bytecode-granular preemption inside one line (e.g. '
       'next(_set_counter), dict operations: atomic under the GIL) is assumed',
       'quick tier samples at most 24 single preemption points per program pair',
